@@ -202,6 +202,9 @@ where
         for i in 0..n - 1 {
             let q = var(&format!("q{i}"), xs[i] + (xs[i + 1] - xs[i]) * 0.3125);
             put(&format!("P:{i}"), q, &mut outputs);
+            // a second query close to the right end of the same interval: one interval, one polynomial
+            let q2 = var(&format!("qq{i}"), xs[i] + (xs[i + 1] - xs[i]) * 0.9375);
+            put(&format!("Q:{i}"), q2, &mut outputs);
             // a query exactly on the NEXT knot, issued right after a query in the interval to its left
             // (the answer must come from the interval that starts at the knot, whatever was asked before)
             let qk = var(&format!("qk{}", i + 1), xs[i + 1]);
